@@ -63,6 +63,9 @@ type runtime struct {
 	stuck       bool
 	cancelAt    int
 	lazy        bool // every other idle call delivers nothing
+	exact       bool // Case.ExactMasks
+	shared      map[int]graphql.ResolvePromise
+	panicAt     int
 	calls       int
 	started     int
 	cancel      func()
@@ -118,6 +121,9 @@ func (rt *runtime) idle() {
 		mask = rt.sched[k]
 	}
 	picked := SelectMask(mask, n)
+	if rt.exact {
+		picked = SelectExact(mask, n)
+	}
 	var rest []*promise
 	pi := 0
 	for j, p := range rt.outstanding {
@@ -152,6 +158,9 @@ func resolver(idx int, f *FShape) func(graphql.FieldContext) (interface{}, error
 		if rt.cancelAt > 0 && rt.started == rt.cancelAt {
 			defer rt.cancel()
 		}
+		if rt.panicAt > 0 && rt.started == rt.panicAt {
+			panic(PanicText)
+		}
 		var val any
 		var err error
 		if wf.Err != "" {
@@ -176,6 +185,15 @@ func resolver(idx int, f *FShape) func(graphql.FieldContext) (interface{}, error
 			return val, err
 		}
 		ch := make(graphql.ResolvePromise, 1)
+		if wf.Share > 0 {
+			if rt.shared == nil {
+				rt.shared = map[int]graphql.ResolvePromise{}
+			}
+			if rt.shared[wf.Share] == nil {
+				rt.shared[wf.Share] = make(graphql.ResolvePromise, 64)
+			}
+			ch = rt.shared[wf.Share]
+		}
 		p := &promise{id: rt.all, ch: ch, res: graphql.ResolveResult{Value: val, Error: err}, path: path}
 		rt.all++
 		rt.promises = append(rt.promises, p)
@@ -196,6 +214,7 @@ type compiled struct {
 	schema  *graphql.Schema
 	doc     *ast.Document
 	usesVar bool // the document has a directive on $nv
+	vars    map[string]interface{}
 }
 
 var compileCache = map[string]*compiled{}
@@ -254,6 +273,14 @@ func objectType(t *TShape, types *schemaTypes) *graphql.ObjectType {
 			return nil, errors.New("harness: resolver of a type no value belongs to")
 		}}
 	}
+	// J<n>: an interface only X<n> implements; V<n>: a union whose only member is X<n> — type
+	// conditions that are valid where I<n> / U<n> is expected but never apply to T<n>
+	second := &graphql.InterfaceType{Name: "J" + num, Fields: map[string]*graphql.FieldDefinition{}}
+	for name, def := range ot.Fields {
+		second.Fields[name] = &graphql.FieldDefinition{Type: def.Type}
+	}
+	other.ImplementedInterfaces = []*graphql.InterfaceType{second}
+	types.extra = append(types.extra, second, &graphql.UnionType{Name: "V" + num, MemberTypes: []*graphql.ObjectType{other}})
 	switch t.Abstract {
 	case "iface":
 		iface := &graphql.InterfaceType{Name: "I" + num, Fields: map[string]*graphql.FieldDefinition{}}
@@ -261,7 +288,7 @@ func objectType(t *TShape, types *schemaTypes) *graphql.ObjectType {
 			iface.Fields[name] = &graphql.FieldDefinition{Type: def.Type}
 		}
 		ot.ImplementedInterfaces = []*graphql.InterfaceType{iface}
-		other.ImplementedInterfaces = []*graphql.InterfaceType{iface}
+		other.ImplementedInterfaces = []*graphql.InterfaceType{iface, second}
 		types.named[t.TypeName] = iface
 		types.extra = append(types.extra, other, ot)
 	case "union":
@@ -289,6 +316,9 @@ func compile(c *Case) (*compiled, error) {
 	if c.Mutation {
 		def = &graphql.SchemaDefinition{Query: dummyQuery, Mutation: root}
 	}
+	if c.Subscription {
+		def = &graphql.SchemaDefinition{Query: dummyQuery, Subscription: root}
+	}
 	def.AdditionalTypes = types.extra
 	def.Directives = map[string]*graphql.DirectiveDefinition{"skip": graphql.SkipDirective, "include": graphql.IncludeDirective}
 	s, err := graphql.NewSchema(def)
@@ -299,7 +329,7 @@ func compile(c *Case) (*compiled, error) {
 	if len(errs) > 0 {
 		return nil, fmt.Errorf("document %q rejected: %v", c.Document(), errs[0].Message)
 	}
-	cc := &compiled{schema: s, doc: doc, usesVar: c.Syntax != 0 && c.UsesNullVar()}
+	cc := &compiled{schema: s, doc: doc, usesVar: c.Syntax != 0 && c.UsesNullVar(), vars: c.VariableValues()}
 	compileCache[key] = cc
 	return cc, nil
 }
@@ -399,13 +429,10 @@ func RunReal(c *Case) (obs *Observed, err error) {
 		return nil, err
 	}
 	usesVar := cc.usesVar
-	var vars map[string]interface{}
-	if usesVar {
-		vars = map[string]interface{}{NullVar: nil}
-	}
+	vars := cc.vars
 	ctx, cancel := context.WithCancel(context.Background())
 	defer cancel()
-	rt := &runtime{sched: c.Schedule, cancelAt: c.CancelAt, cancel: cancel, lazy: c.LazyIdle}
+	rt := &runtime{sched: c.Schedule, cancelAt: c.CancelAt, cancel: cancel, lazy: c.LazyIdle, exact: c.ExactMasks, panicAt: c.PanicAt}
 	obs = &Observed{}
 	var resp *graphql.Response
 	func() {
